@@ -236,7 +236,7 @@ Step(S, e) ==
               IN IF pb # pe THEN LexLE3(<<pb[1], pb[2], 0>>, <<pe[1], pe[2], 0>>)
                  ELSE (b \in DOMAIN S.prio /\ e.b \in DOMAIN S.prio /\ Len(S.prio[b]) = 3 /\ Len(S.prio[e.b]) = 3)
                         => S.prio[b][3] <= S.prio[e.b][3]
-            reach == IF root # 0 THEN Reach(S, root) ELSE {}
+            reach == IF root # 0 THEN Reach(S, root) \cap Tasks(S) ELSE {}
             blk == Blocked(S)
             maxOk == \A t \in reach : FutDone(S, t) \/ (S.ts[t].seg > 0 /\ S.ts[t].st = "waiting" /\ t \in blk)
             S1 == [S EXCEPT !.bat[e.b].nbefore = @ + 1, !.bat[e.b].sched = TRUE, !.nflush = @ + 1, !.prio = EmptyFn]
